@@ -15,7 +15,7 @@ container with its inputs; (b) identical calls return bytes-identical results; (
 equals a fresh one, no hidden state); (d) recorded values are unaffected by later calls (they are live objects, so
 (a) covers them) and the first value recorded by simulate equals that of the sequence cut after the probe;
 (e) hash-seed independence; (f) the results equal the pure model's."""
-import os, sys, json, copy, types, hashlib, subprocess, ast, time
+import os, sys, json, copy, types, hashlib, subprocess, ast, time, re
 import numpy as np
 
 if __name__ == "__main__":          # runner mode: make /verif importable
@@ -31,6 +31,8 @@ def canon(x, stack=None, idmap=None, top=True):
     """idmap: {id(live object): ref}; a live object met INSIDE another object is shown as a reference"""
     if stack is None:
         stack = set()
+    if isinstance(x, str) and " at 0x" in x:
+        return re.sub(r" at 0x[0-9a-fA-F]+", " at 0x?", x)      # repr of a callable stored by Probe: memory address
     if x is None or isinstance(x, (bool, int, str, bytes)):
         return x
     if idmap is not None and not top and id(x) in idmap:
@@ -385,7 +387,7 @@ def alias_events(c, step, r, inputs):
 
 def run_pure(hist):
     """reference semantics of Model/Purity.v on the implementation: values are pristine deep copies"""
-    store, res = [], []
+    store, res, args_at = [], [], []
     for spec in hist["objects"]:
         try:
             o = build_object(spec)
@@ -393,12 +395,16 @@ def run_pure(hist):
             o = Raised(e)
         store.append(o)          # freshly built, never handed out: pristine
         res.append(None)
+        args_at.append(None)
     for c in hist["calls"]:
         refs = call_refs(c)
         if any(isinstance(store[r], Raised) for r in refs):
             store.append(Raised(ValueError("argument raised")))
             res.append(("skipped",))
+            args_at.append(None)
             continue
+        # the argument VALUES of this call (the store entry of a state matrix may be replaced by a later in-place call)
+        args_at.append({r: store[r] for r in refs} if c["do"] == "simulate" else None)
         handed = {}
 
         def arg(k):
@@ -419,7 +425,7 @@ def run_pure(hist):
             r = copy.deepcopy(r) if not isinstance(r, Raised) else r
         store.append(r)
         res.append(cr)
-    return {"results": res, "store": store}
+    return {"results": res, "store": store, "args": args_at}
 
 
 # =====================================================================================================
@@ -539,6 +545,7 @@ def analyse(hist, deep=True):
     # (d) the first recorded value equals that of the sequence cut after the first probe (pure run of the cut)
     if deep:
         problems += prefix_check(hist, pu)
+        problems += stepping_check(hist, pu)
     return problems, sh, pu
 
 
@@ -549,27 +556,32 @@ def prefix_check(hist, pu):
     for ci, c in enumerate(hist["calls"]):
         if c["do"] != "simulate" or (isinstance(pu["results"][n0 + ci], tuple) and pu["results"][n0 + ci][:1] == ("raised",)):
             continue
+        A = pu["args"][n0 + ci]
+        if A is None:
+            continue
         try:
-            seq = copy.deepcopy(pu["store"][c["seq"]])
+            seq = copy.deepcopy(A[c["seq"]])
             if not isinstance(seq, list):
                 continue
             flat = epg.functions.flatten_sequence(seq)
-            if c.get("init") is not None and not is_sm(pu["store"][c["init"]]):
+            if c.get("init") is not None and not is_sm(A[c["init"]]):
                 continue
             idx = [i for i, o in enumerate(flat) if isinstance(o, epg.operators.Probe)]
             if not idx or idx[0] == len(flat) - 1:
                 continue
             kw = dict(c.get("opts") or {})
             if c.get("init") is not None:
-                kw["init"] = copy.deepcopy(pu["store"][c["init"]])
+                kw["init"] = copy.deepcopy(A[c["init"]])
             if c.get("probe") is not None:
                 p = c["probe"]
-                kw["probe"] = [copy.deepcopy(pu["store"][r]) for r in p] if isinstance(p, list) else copy.deepcopy(pu["store"][p])
+                kw["probe"] = [copy.deepcopy(A[r]) for r in p] if isinstance(p, list) else copy.deepcopy(A[p])
             kw["asarray"] = False
-            full = epg.simulate(copy.deepcopy(flat), **kw)
-            if c.get("init") is not None:
-                kw["init"] = copy.deepcopy(pu["store"][c["init"]])
-            cut = epg.simulate(copy.deepcopy(flat[:idx[0] + 1]), **kw)
+            shape = epg.functions.getshape(flat)     # the cut sequence must run on a state of the same shape as the full one
+
+            def init():
+                return copy.deepcopy(A[c["init"]]) if c.get("init") is not None else epg.StateMatrix([0, 0, 1], shape=shape)
+            full = epg.simulate(copy.deepcopy(flat), **dict(kw, init=init()))
+            cut = epg.simulate(copy.deepcopy(flat[:idx[0] + 1]), **dict(kw, init=init()))
             multi = isinstance(c.get("probe"), list) and len(c["probe"]) > 1
             a = [v[0] for v in full] if multi else full[0]
             b = [v[0] for v in cut] if multi else cut[0]
@@ -581,6 +593,81 @@ def prefix_check(hist, pu):
             if not shp:
                 out.append({"sig": {"site": "simulate", "why": "prefix-raises"}, "step": n0 + ci, "kind": "snapshot",
                             "what": "simulate of the sequence cut after its first probe raised %s: %s" % (type(e).__name__, str(e)[:200])})
+    return out
+
+
+SIM_KEYS = ("asarray", "adc_time", "squeeze", "callback", "disp")
+
+
+def stepping_check(hist, pu):
+    """(d) EVERY value recorded by simulate() equals the value at its own position: the sequence is stepped manually
+    (operators applied one by one, probes acquired exactly as simulate_simple does) with an immediate deep copy of every
+    recorded value; and no recorded value shares memory with the live state at the time it is recorded."""
+    import epgpy as epg
+    out = []
+    n0 = len(hist["objects"])
+    for ci, c in enumerate(hist["calls"]):
+        got = pu["results"][n0 + ci]
+        if c["do"] != "simulate" or (isinstance(got, tuple) and got[:1] in (("raised",), ("skipped",))):
+            continue
+        A = pu["args"][n0 + ci]
+        if A is None:
+            continue
+        try:
+            seq = copy.deepcopy(A[c["seq"]])
+            if not isinstance(seq, list):
+                continue
+            flat = epg.functions.flatten_sequence(seq)
+            allopts = dict(c.get("opts") or {})
+            if allopts.get("adc_time") or allopts.get("callback"):
+                continue
+            opts = {k: v for k, v in allopts.items() if k not in SIM_KEYS}
+            if c.get("init") is not None:
+                if not is_sm(A[c["init"]]):
+                    continue
+                sm = copy.deepcopy(A[c["init"]]).copy()
+                sm.options.update(opts)
+            else:
+                sm = epg.StateMatrix([0, 0, 1], nstate=0, shape=epg.functions.getshape(flat), **opts)
+            probes = []
+            if c.get("probe") is not None:
+                p = c["probe"]
+                ps = [copy.deepcopy(A[r]) for r in p] if isinstance(p, list) else [copy.deepcopy(A[p])]
+                probes = [q if isinstance(q, (epg.operators.Probe, type(None))) else epg.operators.Probe(q) for q in ps]
+            values, aliased = [], None
+            for op in flat:
+                sm = op(sm, inplace=True)
+                if isinstance(op, epg.operators.Probe):
+                    row = []
+                    for pb in (probes or [op]):
+                        v = (pb or op).acquire(sm, post=op.post)
+                        if aliased is None:
+                            live = arrays_of(sm)
+                            for pth, a in arrays_of(v):
+                                for q, b in live:
+                                    if a.size and b.size and np.may_share_memory(a, b) and np.shares_memory(a, b):
+                                        aliased = (repr(pb or op), pth, q)
+                                        break
+                                if aliased:
+                                    break
+                        row.append(copy.deepcopy(v))
+                    values.append(row)
+            values = tuple(zip(*values))
+            if allopts.get("asarray", True):
+                values = tuple(np.asarray(arr) for arr in values)
+            if len(values) == 1:
+                values = values[0]
+        except Exception:
+            continue            # the oracle itself could not be evaluated (ragged asarray, ...): no verdict
+        if aliased is not None:
+            out.append({"sig": {"site": "Probe.acquire", "why": "recorded-value-aliases-state"}, "step": n0 + ci, "kind": "snapshot",
+                        "what": "call %d (%s): the value acquired by probe %s shares memory with the live state matrix (recorded%s vs state%s): "
+                                "it is not a snapshot" % (n0 + ci, describe(hist, n0 + ci), aliased[0], aliased[1], aliased[2])})
+        exp = canon(values)
+        if exp != got:
+            out.append({"sig": {"site": "simulate", "why": "recorded-value-changed-by-later-operators"}, "step": n0 + ci, "kind": "snapshot",
+                        "what": "call %d (%s): the values returned by simulate() differ from the values at their own positions (manual stepping with an "
+                                "immediate copy of each recorded value), first difference at %s" % (n0 + ci, describe(hist, n0 + ci), first_diff(exp, got))})
     return out
 
 
@@ -646,6 +733,9 @@ def shrink(hist, sig, budget=60):
 # =====================================================================================================
 # generators
 # =====================================================================================================
+PLAIN = ("F0", "Z0", "F0Z0")        # probes that need no order1/order2 attributes and may be sequence items
+
+
 def gen_synth(rng):
     """exact-dyadic history over synthetic operators; every call is in the model's language"""
     with_o2 = rng.random() < 0.4
@@ -671,13 +761,19 @@ def gen_synth(rng):
     pr = [("epg.ADC", "F0", None)]
     if rng.random() < 0.5:
         pr.append(("epg.Adc('Z0')", "Z0", None))
+    if rng.random() < 0.7:      # a probe returning several quantities at once (tuple / list)
+        pr.append((rng.choice(["epg.Probe('(F0, Z0)')", "epg.Probe('[F0, Z0]')", "epg.Probe(lambda sm: (sm.F0, sm.Z0))",
+                               "epg.Probe(lambda sm: [sm.F0, sm.Z0])"]), "F0Z0", None))
+    if rng.random() < 0.35:     # ... given as an expression to simulate(probe=...)
+        pr.append((rng.choice(["'(F0, Z0)'", "'F0, Z0'", "'[F0, Z0]'"]), "F0Z0", "stronly"))
     vs = rng.sample(dprog.VARNAMES, rng.randint(1, 3))
     pr.append(("epg.Jacobian(%r)" % vs, "jac", vs))
     if with_o2:
         vs2 = rng.sample(dprog.VARNAMES, rng.randint(1, 2))
         pr.append(("epg.Hessian(%r)" % vs2, "hess", vs2))
     for e, k, v in pr:
-        add({"t": "probe", "expr": e, "pk": k, "vars": v}, kind="probe", pk=k)
+        so = v == "stronly"
+        add({"t": "probe", "expr": e, "pk": k, "vars": None if so else v}, kind="probe", pk=("str" if so else k))
     calls = []
 
     def refs_of(kind):
@@ -752,12 +848,12 @@ def gen_synth(rng):
                 cost += meta[o]["cost"]
                 items.append(o)
                 if rng.random() < 0.45:
-                    cand = [p for p in refs_of("probe") if meta[p]["pk"] in ("F0", "Z0")]
+                    cand = [p for p in refs_of("probe") if meta[p]["pk"] in PLAIN]
                     items.append(rng.choice(cand))
             if not items:
                 continue
             if not any(meta[x].get("kind") == "probe" for x in items):
-                cand = [p for p in refs_of("probe") if meta[p]["pk"] in ("F0", "Z0")]
+                cand = [p for p in refs_of("probe") if meta[p]["pk"] in PLAIN]
                 items.append(rng.choice(cand))
             if rng.random() < 0.3 and len(items) >= 3:      # nested list
                 k = rng.randint(1, len(items) - 1)
@@ -774,8 +870,8 @@ def gen_synth(rng):
                 continue
             opts = {"max_nstate": rng.choice([1, 2, 3])} if rng.random() < 0.3 else {}
             probe = None
-            if rng.random() < 0.35:
-                cand = [p for p in refs_of("probe") if meta[p]["pk"] in ("F0", "Z0") or meta[q]["first_is_diff"]]
+            if rng.random() < 0.4:
+                cand = [p for p in refs_of("probe") if meta[p]["pk"] in PLAIN + ("str",) or meta[q]["first_is_diff"]]
                 probe = rng.choice(cand)
             c = {"do": "simulate", "seq": q, "init": init, "opts": dict(opts, asarray=False), "probe": probe}
             addc(c, kind="res")
@@ -784,7 +880,7 @@ def gen_synth(rng):
                     addc(dict(c), kind="res")
         elif do == "acquire":
             s = rng.choice(refs_of("sm"))
-            cand = [p for p in refs_of("probe") if meta[p]["pk"] in ("F0", "Z0") or meta[s]["attr"]]
+            cand = [p for p in refs_of("probe") if meta[p]["pk"] in PLAIN or (meta[s]["attr"] and meta[p]["pk"] != "str")]
             addc({"do": "acquire", "probe": rng.choice(cand), "sm": s}, kind="res")
     return {"kind": "synth", "objects": objs, "calls": calls}
 
@@ -828,8 +924,11 @@ def gen_real(rng):
         add({"t": "sm", "expr": "epg.StateMatrix(%s)" % ("kgrid=1.0" if fam == "imaging" else "")}, kind="sm", attr=False)
     # operators
     nops = rng.randint(3, 6)
+    noshift = fam in ("basic", "batched") and rng.random() < 0.4       # no shift: the state arrays are never re-allocated
     for _ in range(nops):
         k = rng.choice(["T", "T", "E", "E", "S", "S", "P", "R", "Phi", "plain", "C" if fam == "imaging" else "S"])
+        if noshift and k == "S":
+            k = rng.choice(["T", "E", "P"])
         if k == "T":
             e = "epg.T(%s, %s%s)" % (arr([20, 45, 90, 150]), rng.choice([0, 30, 90]), o1(["alpha", "phi"]))
         elif k == "E":
@@ -856,6 +955,8 @@ def gen_real(rng):
         add({"t": "op", "expr": e}, kind="op", diff=isdiff)
     # probes
     pr = ["epg.ADC", "epg.ADC", "epg.Adc('Z0', phase=30.0)", "epg.Probe('F0 * 2')", "epg.Probe('abs(Z0)', post=np.real)",
+          "epg.Probe('(F0, Z0)')", "epg.Probe('[F0, Z0]')", "epg.Probe(lambda sm: (sm.F0, sm.Z0))",
+          "epg.Probe(lambda sm: [sm.F, (sm.Z, sm.states)])", "epg.Probe(lambda sm: ((sm.F0, sm.Z0), sm.states))", "'(F0, Z0)'", "'[F, Z]'",
           "epg.Jacobian(['alpha', 'T2', 'magnitude'])", "epg.Hessian(['alpha', 'T2'], ['T2', 'tau'])", "epg.Adc('F', phase=[10.0])"]
     if fam == "batched":
         pr += ["epg.Adc('F0', reduce=True)", "epg.Adc('F0', weights=np.array([1.0, 2.0, 0.5]))", "epg.Adc(reduce=0, phase=45.0)"]
@@ -868,7 +969,8 @@ def gen_real(rng):
               "epg.DFT(np.array([[0.1, 0.0, 0.0], [0.25, 0.0, 0.0]]))"]
     for e in ["epg.ADC"] + rng.sample(pr[1:], min(len(pr) - 1, rng.randint(1, 3))):
         needs = e.startswith(("epg.Jacobian", "epg.Hessian"))
-        add({"t": "probe", "expr": e}, kind="probe", needs_attr=needs)
+        # ragged values cannot be substituted on an Adc (Adc._post converts the value to one array)
+        add({"t": "probe", "expr": e}, kind="probe", needs_attr=needs, stronly=e.startswith("'"), ragged="sm.states" in e)
     calls = []
 
     def refs_of(kind):
@@ -893,7 +995,7 @@ def gen_real(rng):
             else:
                 addc({"do": "apply", "op": o, "sm": s, "inplace": False}, kind="sm", attr=attr)
         elif do == "papply":       # a probe applied like an operator
-            p, s = rng.choice(refs_of("probe")), rng.choice(refs_of("sm"))
+            p, s = rng.choice([x for x in refs_of("probe") if not meta[x]["stronly"]]), rng.choice(refs_of("sm"))
             addc({"do": "apply", "op": p, "sm": s, "inplace": False}, kind="sm", attr=meta[s]["attr"], alias_of=s)
         elif do == "copy":
             s = rng.choice(refs_of("sm"))
@@ -925,10 +1027,10 @@ def gen_real(rng):
                     first_is_diff = bool(meta[o].get("first_diff", meta[o].get("diff")))
                 items.append(o)
                 if rng.random() < 0.45:
-                    cand = [p for p in refs_of("probe") if not meta[p]["needs_attr"]]
+                    cand = [p for p in refs_of("probe") if not meta[p]["needs_attr"] and not meta[p]["stronly"]]
                     items.append(rng.choice(cand))
             if not any(meta[x].get("kind") == "probe" for x in items):
-                cand = [p for p in refs_of("probe") if not meta[p]["needs_attr"]]
+                cand = [p for p in refs_of("probe") if not meta[p]["needs_attr"] and not meta[p]["stronly"]]
                 items.append(rng.choice(cand))
             if rng.random() < 0.3 and len(items) >= 3:
                 k = rng.randint(1, len(items) - 1)
@@ -949,7 +1051,7 @@ def gen_real(rng):
             opts["asarray"] = False
             probe = None
             if rng.random() < 0.3:
-                cand = [p for p in refs_of("probe") if not meta[p]["needs_attr"] or meta[q]["first_is_diff"]]
+                cand = [p for p in refs_of("probe") if (not meta[p]["needs_attr"] or meta[q]["first_is_diff"]) and not meta[p]["ragged"]]
                 probe = rng.choice(cand) if rng.random() < 0.7 else [rng.choice(cand), rng.choice(cand)]
             c = {"do": "simulate", "seq": q, "init": init, "opts": opts, "probe": probe}
             addc(c, kind="res")
@@ -957,8 +1059,13 @@ def gen_real(rng):
                 addc(dict(c), kind="res")
         elif do == "acquire":
             s = rng.choice(refs_of("sm"))
-            cand = [p for p in refs_of("probe") if not meta[p]["needs_attr"] or meta[s]["attr"]]
+            cand = [p for p in refs_of("probe") if not meta[p]["stronly"] and (not meta[p]["needs_attr"] or meta[s]["attr"])]
             addc({"do": "acquire", "probe": rng.choice(cand), "sm": s}, kind="res")
+            if rng.random() < 0.5:      # ... followed by an operator applied in place to the probed state
+                o = rng.choice(refs_of("op"))
+                mo, ms = meta[o], meta[s]
+                ms["attr"] = True if (mo.get("diff") and not mo.get("multi")) else ms["attr"]
+                addc({"do": "apply", "op": o, "sm": s, "inplace": True}, kind="placeholder")
     return {"kind": "real:" + fam, "objects": objs, "calls": calls}
 
 
@@ -988,7 +1095,8 @@ def gen_vseq(rng):
         elif m == "simulate":
             calls.append({"do": "vcall", "vseq": 0, "method": "simulate", "values": v, "opts": rng.choice([{}, {"max_nstate": 2}, {"init": None}])})
         else:
-            calls.append({"do": "vcall", "vseq": 0, "method": m, "vars": sub, "values": v, "opts": rng.choice([{}, {}, {"max_nstate": 3}])})
+            calls.append({"do": "vcall", "vseq": 0, "method": m, "vars": (sub[:1] if m == "crlb" else sub), "values": v,
+                          "opts": rng.choice([{}, {}, {"max_nstate": 3}])})
         if rng.random() < 0.5:
             calls.append(dict(calls[-1]))
     return {"kind": "real:vseq", "objects": objs, "calls": calls}
@@ -1017,6 +1125,30 @@ WITNESSES = [
     ("Probe.__call__ returns its input object", {"kind": "witness", "objects": [
         {"t": "sm", "expr": "epg.StateMatrix()"}, {"t": "probe", "expr": "epg.ADC"}],
         "calls": [{"do": "apply", "op": 1, "sm": 0, "inplace": False}]}),
+    # probes returning several quantities at once, recorded at interior positions and followed by operators that work in place
+    # without re-allocating the state arrays (no shift / max_nstate reached)
+    ("multi-valued probes inside simulate are snapshots (no shift)", {"kind": "witness", "objects": [
+        {"t": "op", "expr": "epg.T(90, 90)"}, {"t": "op", "expr": "epg.E(10.0, 100.0, 20.0)"}, {"t": "op", "expr": "epg.T(60, 30)"},
+        {"t": "probe", "expr": "epg.Probe('(F0, Z0)')"}, {"t": "probe", "expr": "epg.Probe(lambda sm: [sm.F, (sm.Z, sm.states)])"},
+        {"t": "probe", "expr": "epg.ADC"}, {"t": "probe", "expr": "'[F0, Z0]'"}, {"t": "sm", "expr": "epg.StateMatrix([0.6, 0.6, 0.3])"}],
+        "calls": [{"do": "mkseq", "refs": [0, 1, 3, 2, 1, 3, 0, 1, 3]}, {"do": "mkseq", "refs": [0, 1, 4, 2, 1, 4, 0, 4]},
+                  {"do": "mkseq", "refs": [0, 1, 5, 2, 1, 5, 0, 1, 5]},
+                  {"do": "simulate", "seq": 8, "init": None, "opts": {"asarray": False}, "probe": None},
+                  {"do": "simulate", "seq": 8, "init": 7, "opts": {}, "probe": None},
+                  {"do": "simulate", "seq": 9, "init": None, "opts": {"asarray": False}, "probe": None},
+                  {"do": "simulate", "seq": 10, "init": None, "opts": {"asarray": False}, "probe": 6},
+                  {"do": "simulate", "seq": 10, "init": 7, "opts": {"asarray": False}, "probe": [3, 6]}]}),
+    ("multi-valued probes inside simulate are snapshots (max_nstate reached)", {"kind": "witness", "objects": [
+        {"t": "op", "expr": "epg.T(40, 90)"}, {"t": "op", "expr": "epg.S(1)"}, {"t": "op", "expr": "epg.E(5.0, 100.0, 20.0)"},
+        {"t": "probe", "expr": "epg.Probe(lambda sm: (sm.F0, sm.Z0, sm.F))"}],
+        "calls": [{"do": "mkseq", "refs": [0, 1, 2, 3, 0, 1, 2, 3, 0, 1, 2, 3, 0, 1, 3]},
+                  {"do": "simulate", "seq": 4, "init": None, "opts": {"asarray": False, "max_nstate": 1}, "probe": None}]}),
+    ("Probe.acquire of several quantities is a snapshot", {"kind": "witness", "objects": [
+        {"t": "sm", "expr": "epg.StateMatrix([0.6, 0.6, 0.3])"}, {"t": "probe", "expr": "epg.Probe(lambda sm: (sm.F0, sm.Z0))"},
+        {"t": "probe", "expr": "epg.Probe('[F, (Z, states)]')"}, {"t": "op", "expr": "epg.T(90, 0)"}, {"t": "op", "expr": "epg.E(10.0, 100.0, 20.0)"}],
+        "calls": [{"do": "acquire", "probe": 1, "sm": 0}, {"do": "acquire", "probe": 2, "sm": 0},
+                  {"do": "apply", "op": 3, "sm": 0, "inplace": True}, {"do": "apply", "op": 4, "sm": 0, "inplace": True},
+                  {"do": "acquire", "probe": 1, "sm": 0}]}),
 ]
 
 
@@ -1032,14 +1164,22 @@ def c_nat_opt(n):
     return core.coq_opt(n, lambda k: "%d%%nat" % k)
 
 
+def flat_numbers(v):
+    """all numbers of a recorded value (array, or nested tuple / list of arrays), in order"""
+    if isinstance(v, (list, tuple)):
+        return [z for x in v for z in flat_numbers(x)]
+    return np.asarray(v).ravel().tolist()
+
+
 def c_obs_value(kind, obj, snapped=False):
     if kind == "sm":
         main, o1, o2 = obj if snapped else dprog.snap_d(obj)
         return "(ObSm %s %s %s)" % (prog.c_sm(main), dprog.c_assoc(o1, lambda v: "%d%%nat" % dprog.vrank(v)),
                                     dprog.c_assoc(o2, lambda k: dprog.c_pair(k, dprog.vrank)))
-    if kind == "res":
-        vals = obj if isinstance(obj, (list, tuple)) and not isinstance(obj, np.ndarray) else [obj]
-        rows = [core.clist([core.qi(z) for z in np.asarray(v).ravel().tolist()]) for v in vals]
+    if kind in ("res", "res1"):
+        # "res": what simulate(asarray=False) returns, one entry per acquisition; "res1": one acquisition (Probe.acquire)
+        vals = [obj] if kind == "res1" else list(obj)
+        rows = [core.clist([core.qi(z) for z in flat_numbers(v)]) for v in vals]
         return "(@ObRes QIops %s)" % core.clist(rows)
     return "ObNone"
 
@@ -1060,6 +1200,8 @@ def synth_term(hist, sh):
                 store.append("(@VProbe QIops PF0)")
             elif pk == "Z0":
                 store.append("(@VProbe QIops PZ0)")
+            elif pk == "F0Z0":
+                store.append("(@VProbe QIops PF0Z0)")
             else:
                 store.append("(@VProbe QIops (%s %s))" % ("PJac" if pk == "jac" else "PHess",
                                                          core.clist(["%d%%nat" % dprog.vrank(v) for v in spec["vars"]])))
@@ -1086,7 +1228,7 @@ def synth_term(hist, sh):
                                                       c_nat_opt(c.get("probe"))))
             obs.append(c_obs_value("res", r))
         elif do == "acquire":
-            calls.append("(CAcquire %d %d)" % (c["probe"], c["sm"])); obs.append(c_obs_value("res", r))
+            calls.append("(CAcquire %d %d)" % (c["probe"], c["sm"])); obs.append(c_obs_value("res1", r))
         else:
             raise ValueError(do)
     finals = core.clist(["(%d%%nat, %s)" % (k, c_obs_value("sm", env[k])) for k in sm_refs])
